@@ -162,6 +162,9 @@ class Sym:
                     ib = f"({node.right.value} : Int)" if lit_b else b
                     sym = {ast.Add: "+", ast.Sub: "-", ast.Mult: "*"}[type(node.op)]
                     return f"({ia} {sym} {ib})", "int"
+                if isinstance(node.op, ast.FloorDiv) and ta == "int" and tb == "int":
+                    self.guards.append(f"({b} = (0 : Int))")     # int // 0 raises ZeroDivisionError
+                    return f"(Int.fdiv {a} {b})", "int"
                 # any other mix: integers are converted to floats (true division, comparison with floats, ...)
                 if isinstance(node.op, ast.Div) and tb == "int" and ta == "int":
                     self.guards.append(f"({b} = (0 : Int))")     # int / int with a zero divisor raises ZeroDivisionError
@@ -350,10 +353,21 @@ class Sym:
         raise Untranslatable("truthiness of a non-boolean")   # `if x:` on numbers/arrays/None is never guessed
 
     # ---------------- statements (continuation passing: `run` returns the Lean term for "the rest of the computation")
+    def append_of(self, s):
+        """`xs.append(v)` on a list named in spec['appends'] -> (pseudo variable 'xs.append', v): the LAST value appended by the slice
+        (type Option: `none` while the slice has appended nothing)"""
+        if isinstance(s, ast.Expr) and isinstance(s.value, ast.Call) and len(s.value.args) == 1 and not s.value.keywords:
+            fn = dotted(s.value.func) or ""
+            if fn.endswith(".append") and fn[:-7] in self.spec.get("appends", ()):
+                return fn, s.value.args[0]
+        return None
+
     def assigned(self, stmts):
         names = set()
         for s in stmts:
             for n in ast.walk(s):
+                if isinstance(n, ast.Expr) and self.append_of(n):
+                    names.add(self.append_of(n)[0])
                 if isinstance(n, (ast.Assign, ast.AugAssign, ast.AnnAssign)):
                     for t in (n.targets if isinstance(n, ast.Assign) else [n.target]):
                         for el in (t.elts if isinstance(t, ast.Tuple) else [t]):
@@ -387,6 +401,21 @@ class Sym:
         stop = self.spec.get("stop_before")
         if stop and stop in self.assigned([s]):
             return self.finish(env)
+        if isinstance(s, ast.Expr) and self.append_of(s):
+            name, value = self.append_of(s)
+            e, t = self.expr(value, env)
+            if t == "prop":
+                e, t = f"(decide {e})", "bool"
+            self.need(t, "bool")
+            self.counter += 1
+            fresh = f"{lean_ident(name)}_{self.counter}"
+            env2 = dict(env)
+            env2[name] = (fresh, "obool")
+            return f"(let {fresh} : Option Bool := some {e}; {self.run(rest, env2)})"
+        if isinstance(s, ast.Break):
+            if not self.spec.get("allow_break"):
+                raise Untranslatable("break")
+            return self.finish(env)         # the slice is the body of the innermost loop: leaving the loop ends it, outputs as they stand
         if isinstance(s, ast.Expr):     # docstring, logging call, ...
             if isinstance(s.value, ast.Constant) or isinstance(s.value, ast.Call) and ((dotted(s.value.func) or "").startswith(("logger.", "logging.", "warnings.", "print"))
                                                                                        or (dotted(s.value.func) or "") in self.spec.get("skip_calls", ())):
@@ -535,6 +564,17 @@ class Sym:
         env = dict(env)
         lets = ""
         for i, s in enumerate(stmts):
+            if isinstance(s, ast.Expr) and self.append_of(s):
+                name, value = self.append_of(s)
+                e, t = self.expr(value, env)
+                if t == "prop":
+                    e, t = f"(decide {e})", "bool"
+                self.need(t, "bool")
+                self.counter += 1
+                fresh = f"{lean_ident(name)}_{self.counter}"
+                lets += f"let {fresh} : Option Bool := some {e}; "
+                env[name] = (fresh, "obool")
+                continue
             if isinstance(s, ast.Pass) or isinstance(s, ast.Expr):
                 if isinstance(s, ast.Expr) and not (isinstance(s.value, ast.Constant) or isinstance(s.value, ast.Call)
                                                     and ((dotted(s.value.func) or "").startswith(("logger.", "logging.", "warnings.", "print")) or (dotted(s.value.func) or "") in self.spec.get("skip_calls", ()))):
@@ -683,7 +723,7 @@ def find_lambda(tree, path):
 PLANS = {}      # name -> (spec, module ast, plan) of the targets translated by the last `emit`
 
 
-LEAN_TYPES = {"num": "α", "str": "String", "table": "List (String × String)", "bool": "Bool", "int": "Int", "onum": "Option α"}
+LEAN_TYPES = {"num": "α", "str": "String", "table": "List (String × String)", "bool": "Bool", "int": "Int", "onum": "Option α", "obool": "Option Bool"}
 
 
 def translate(repo, spec):
@@ -692,7 +732,7 @@ def translate(repo, spec):
     sym = Sym(spec)
     ret_types = spec.get("out_types", ["num"] * len(spec["out"]))
     ret = LEAN_TYPES[ret_types[0]] if len(ret_types) == 1 else "(" + " × ".join(LEAN_TYPES[t] for t in ret_types) + ")"
-    zero = {"num": "(n# 0)", "str": '""', "bool": "false", "int": "(0 : Int)"}
+    zero = {"num": "(n# 0)", "str": '""', "bool": "false", "int": "(0 : Int)", "obool": "none"}
     placeholder = zero[ret_types[0]] if len(ret_types) == 1 else "(" + ", ".join(zero[t] for t in ret_types) + ")"
     if spec.get("option"):
         ret, placeholder = f"Option {ret}", "none"
@@ -707,6 +747,8 @@ def translate(repo, spec):
             env[t_] = (lean_ident(t_), "table")
         for c_, v_ in spec.get("consts", {}).items():
             env[c_] = number(v_)
+        for a_ in spec.get("appends", ()):
+            env[a_ + ".append"] = ("(none : Option Bool)", "obool")
         if "lambda" in spec:
             lam = find_lambda(tree, spec["lambda"])
             names = [a.arg for a in lam.args.args]
@@ -919,7 +961,29 @@ TARGETS.append(
          params=[("curr_azimuth", "str"), ("prev_azimuth", "str"), ("curve_number", "int"), ("idx", "int"), ("start_idx", "int")],
          out=["start_idx", "prev_azimuth"], out_types=["int", "str"]))
 
-GROUPS = ["Combine", "Azimuth", "Orient", "Windows", "Stats", "Sesame", "Fdwra", "Psd", "Nyquist", "Spatial", "Split", "Readers", "Peaks", "Trim", "ObjectIO"]
+TARGETS += [
+    # time-domain rejection (C13). STA/LTA, body of the loop over the components of one window: points per STA / LTA (`int(seconds // dt)`), the two
+    # IndexErrors and the ZeroDivisionError, and the decision on the extreme ratios -- `some false` appended and the loop left (window rejected), or nothing
+    # appended (next component). The extreme ratios themselves are inputs (np.max / np.min of an array expression).
+    dict(group="TimeRej", name="sta_lta_step", file="hvsrpy/window_rejection.py", func="sta_lta_window_rejection", descend=["record", "component"],
+         allow_break=True, appends=["valid_window_boolean_mask"],
+         abstract={"np.max(sta_values / lta)": "ratio_max", "np.min(sta_values / lta)": "ratio_min"},
+         params=[("sta_seconds", "num"), ("lta_seconds", "num"), ("min_sta_lta_ratio", "num"), ("max_sta_lta_ratio", "num"),
+                 ("timeseries.dt_in_seconds", "num"), ("timeseries.n_samples", "int"), ("ratio_max", "num"), ("ratio_min", "num")],
+         out=["npts_in_sta", "n_sta_in_window", "npts_in_lta", "valid_window_boolean_mask.append"], out_types=["int", "int", "int", "obool"], option=True),
+    # maximum-value rejection: running maximum over the components, normalisation by the overall maximum, keep decision
+    dict(group="TimeRej", name="maxvalue_update", file="hvsrpy/window_rejection.py", func="maximum_value_window_rejection", descend=["idx", "component"],
+         abstract={"np.max(np.abs(timeseries.amplitude))": "component_max"},
+         params=[("maximum_value", "num"), ("component_max", "num")], out=["maximum_value"]),
+    dict(group="TimeRej", name="maxvalue_normalise", file="hvsrpy/window_rejection.py", func="maximum_value_window_rejection", start_at_test="normalized",
+         stop_before="passing_records", abstract={"np.max(np.abs(maximum_values))": "overall_max"},
+         params=[("maximum_values", "num"), ("normalized", "bool"), ("overall_max", "num")], out=["maximum_values"]),
+    dict(group="TimeRej", name="maxvalue_keep", file="hvsrpy/window_rejection.py", func="maximum_value_window_rejection", descend=["maximum_value"],
+         appends=["valid_window_boolean_mask"], skip_calls=("passing_records.append",),
+         params=[("maximum_value", "num"), ("maximum_value_threshold", "num")], out=["valid_window_boolean_mask.append"], out_types=["obool"]),
+]
+
+GROUPS = ["TimeRej", "Combine", "Azimuth", "Orient", "Windows", "Stats", "Sesame", "Fdwra", "Psd", "Nyquist", "Spatial", "Split", "Readers", "Peaks", "Trim", "ObjectIO"]
 
 
 def emit(repo):
@@ -949,7 +1013,7 @@ def _emit(repo):
 
 
 READ = {"num": "flt", "str": "tok", "bool": "bool", "int": "int", "onum": "optFlt"}
-SHOW = {"num": "fF", "int": "toString", "bool": "fB", "str": "id"}
+SHOW = {"num": "fF", "int": "toString", "bool": "fB", "str": "id", "obool": "fOB"}
 
 
 def emit_driver(status):
@@ -959,7 +1023,8 @@ def emit_driver(status):
     L = [f"import HvsrVerif.Generated.Py{g}" for g in groups] + ["import HvsrVerif.Proto",
          "/-! GENERATED by tools/py2lean.py -- driver commands evaluating the translated definitions at Float. -/",
          "namespace HV.Drv", "open HV.Proto HV.Generated", "",
-         "def strPairs : P (List (String × String)) := do rep (← nat) (do let a ← tok; let b ← tok; pure (a, b))", "",
+         "def strPairs : P (List (String × String)) := do rep (← nat) (do let a ← tok; let b ← tok; pure (a, b))",
+         "def fOB : Option Bool → String | none => \"none\" | some b => fB b", "",
          "def opsPy (op : String) : Option (P String) :=", "  match op with"]
     for spec in TARGETS:
         if status.get("py:" + spec["name"]) != "translated":
